@@ -17,6 +17,7 @@ import hashlib
 import io
 import json
 import os
+import pathlib
 import tempfile
 
 import common
@@ -34,6 +35,7 @@ THEOREMS = [
     "Files.restart_crash_loadable_partial",
     "Files.restart_crash_window",
     "Files.restart_crash_loadable_false",
+    "Files.reopened_files_keep_content",
     "Files.isFrameCall_iff",
     "Files.isRestartCall_iff",
 ]
@@ -122,6 +124,19 @@ class Tap:
         self.f.close()
 
 
+OPENED: dict = {}
+
+
+class TapPath(pathlib.PosixPath):
+    """a path whose `open()` hands out a recording `Tap`: the simulation opens the file itself, in the mode IT chooses"""
+
+    def open(self, mode="r", buffering=-1, encoding=None, errors=None, newline=None):  # noqa: ARG002
+        t = Tap(str(self), mode)
+        t.mode_used = mode
+        OPENED[str(self)] = t
+        return t
+
+
 class CallMark:
     """stands in for an observer in `file_manager.observers`: marks the op range of each call"""
 
@@ -186,13 +201,16 @@ def run_real(case, tmp):
         if case["existing"]:
             with open(path, "wb") as w:
                 w.write(previous_content(kind))
-        taps[kind] = Tap(path, case["mode"])
+        taps[kind] = TapPath(path) if case.get("via") == "path" else Tap(path, case["mode"])
     sim = GrandCanonical(
         atoms, E["Atoms"]("Cu"), temperature=5000.0, chemical_potential=case["mu"], max_cycles=2, seed=case["seed"],
         number_of_exchange_particles=len(atoms), default_exchange_move=E["ExchangeMove"](np.arange(len(atoms))),
         default_displacement_move=E["DisplacementMove"](np.arange(len(atoms))),
         logfile=taps["log"], trajectory=taps["traj"], restart_file=taps["restart"],
         logging_interval=case["interval"], logging_mode=case["mode"])
+
+    if case.get("via") == "path":
+        taps = {kind: OPENED[os.path.join(tmp, kind)] for kind in taps}
 
     def snap():
         return (int(sim.step_count), [int(z) for z in sim.atoms.numbers], sim.atoms.get_positions().tolist())
@@ -427,7 +445,16 @@ class Checker:
                     self.fail("restart:not-latest-after-call", f"after call {c}: {len(tap.visible[j])} bytes visible, "
                               f"document {len(call_bytes(tap, c - 1))} bytes, loads to {st if isinstance(st, str) else st[0]}")
 
+    def check_open(self):
+        for kind, tap in self.taps.items():
+            want = tap.initial if self.case["mode"] == "a" else b""
+            if tap.visible[0] != want:
+                self.fail(f"open:{'existing-content-lost' if self.case['mode'] == 'a' else 'not-truncated'}:{kind}",
+                          f"logging_mode {self.case['mode']!r}: right after the simulation was built the {kind} file holds "
+                          f"{len(tap.visible[0])} bytes, expected {len(want)} (opened with mode {getattr(tap, 'mode_used', '?')!r})")
+
     def run(self):
+        self.check_open()
         self.check_log()
         self.check_traj()
         self.check_restart()
@@ -456,6 +483,16 @@ class FileCrash(common.Suite):
                     "seed": rng.randrange(1, 2**31)})
         out.append({"mode": "w", "existing": True, "mu": -4.5, "rep": 3, "interval": 3, "segs": [12],
                     "seed": rng.randrange(1, 2**31)})
+        # the simulation opens the files itself (paths, not streams): the mode it uses is part of what is checked; with
+        # interval 5 there are crash points of the new run BEFORE its first restart write
+        for mode in ("a", "w"):
+            for existing in (True, False):
+                out.append({"mode": mode, "existing": existing, "mu": -4.0, "rep": 2, "interval": rng.choice([1, 5]),
+                            "segs": [6, 6], "seed": rng.randrange(1, 2**31), "via": "path"})
+        # the system is emptied completely: frames and documents of a 0-atom state
+        for mode in ("a", "w"):
+            out.append({"mode": mode, "existing": False, "mu": -12.0, "rep": 1, "interval": 1, "segs": [14],
+                        "seed": rng.randrange(1, 2**31), "via": "path" if mode == "a" else "stream"})
         if tier == "thorough":
             for mode in ("a", "w"):
                 for existing in (False, True):
@@ -542,7 +579,7 @@ class FileCrash(common.Suite):
             if w[0] != "ok" or len(w) != len(tap.ops) + 1:
                 diffs.append(f"(ii) {kind}: model answered {out[:80]!r} for {len(tap.ops)} ops")
                 continue
-            disk = tap.visible[0] if (case["mode"] == "a") else b""
+            disk = tap.initial if (case["mode"] == "a") else b""
             if tap.visible[0] != disk:
                 diffs.append(f"(ii) {kind}: file after open({case['mode']!r}) holds {len(tap.visible[0])} bytes, model {len(disk)}")
             for j, tok in enumerate(w[1:], start=1):
@@ -579,7 +616,7 @@ class FileCrash(common.Suite):
         if "exception" in obs or obs["calls"]["restart"] < 2:
             return None
         return (f"mode={case['mode']},existing={case['existing']},grew={obs['grew']},shrank={obs['shrank']},"
-                f"steps={sum(case['segs'])}")
+                f"steps={sum(case['segs'])},via={case.get('via', 'stream')},emptied={0 in obs.get('natoms', [1])}")
 
 
 TOTALS = {"runs": 0, "ops": 0, "cuts": 0, "images": 0, "window_images": 0, "window_unloadable": 0, "restart_calls": 0,
